@@ -88,6 +88,8 @@ class Runner:
         self.done_calls = {}
         self.shutdown_info = {}
         self.futures_at_shutdown = {}
+        self.consumers = {}
+        self.consumer_tasks = []
 
     # ---- hooks on the implementation -----------------------------------------------------
     def on_send(self, tick, dest, data):
@@ -226,6 +228,35 @@ class Runner:
             return True
 
         req._pipe.on_event(cb, is_interest=False)
+        if ob and self.script.get("consume"):
+            # the application iterates over the observation, as the documentation recommends
+            state = self.consumers[r] = {"items": 0, "end": "pending"}
+
+            async def consume(req=req, state=state):
+                try:
+                    async for _ in req.observation:
+                        state["items"] += 1
+                    state["end"] = "stopped"
+                except asyncio.CancelledError:
+                    state["end"] = "cancelled-by-harness"
+                    raise
+                except Exception as e:
+                    state["end"] = "raised:" + ",".join(c.__name__ for c in type(e).__mro__)
+
+            task = self.loop.create_task(consume())
+            task.add_done_callback(lambda f: f.cancelled() or f.exception())
+            self.consumer_tasks.append(task)
+
+    def do_N(self, ev):
+        """["N", t, [ev, ...]]: several input events back to back in ONE loop callback (oracle-only scenarios)"""
+        was_shut = self.shut           # a transport closed in an earlier callback delivers nothing
+        for sub in ev[2]:
+            sub = list(sub)
+            sub[1] = ev[1]
+            if was_shut and sub[0] in ("R", "E"):
+                continue
+            self.log.append(("in", event_token(sub), ev[1]))
+            getattr(self, "do_" + sub[0])(sub)
 
     def do_R(self, ev):
         _, t, remote, mcl, mt, code, mid, tok, obs, body = ev
@@ -249,7 +280,18 @@ class Runner:
         if pipe is None:
             return
         T = type("HarnessTuning", (TransportTuning,), {"MAX_RETRANSMIT": mr, "reliability": rel})
-        msg = aiocoap.Message(code=aiocoap.Code(code), transport_tuning=T())
+        shared = getattr(self, "_shared_response", None)
+        if self.script.get("alias_responses") and shared is not None:
+            # the application keeps ONE response object (a pre-built representation, say) and hands it out for
+            # every request, updating its content
+            msg = shared
+            msg.code = aiocoap.Code(code)
+            msg.payload = b""
+            msg.opt.observe = None
+            msg.opt.no_response = None
+        else:
+            msg = aiocoap.Message(code=aiocoap.Code(code), transport_tuning=T())
+            self._shared_response = msg
         if mt is not None:
             msg.mtype = aiocoap.Type(TYPES.index(mt))
         if obs is not None:
@@ -290,6 +332,13 @@ class Runner:
     def do_C(self, ev):
         self.requests[ev[2]].response.cancel()
 
+    def do_O(self, ev):
+        """["O", t, r]: the application calls the public request.observation.cancel() (it may still want the
+        response).  Oracle-only scenarios."""
+        obs = getattr(self.requests.get(ev[2]), "observation", None)
+        if obs is not None and not obs.cancelled:
+            obs.cancel()
+
     def do_E(self, ev):
         self.net.inject_error(errno.ECONNREFUSED, self.sockaddr(ev[2]))
 
@@ -314,7 +363,12 @@ class Runner:
             self.futures_at_shutdown = {k: _future_state(q) for k, q in self.requests.items()}
             self.shutdown_info["handlers_alive"] = sorted(self.srv_pipes)
 
-        self.shutdown_task = self.loop.create_task(shut())
+        if len(ev) > 2 and ev[2]:
+            # the application's task calls shutdown() in this very callback (it was woken by a timer that fired in
+            # the loop iteration in which the preceding datagram arrived): runs synchronously up to its first wait
+            self.shutdown_task = asyncio.Task(shut(), loop=self.loop, eager_start=True)
+        else:
+            self.shutdown_task = self.loop.create_task(shut())
 
     # ---- the site: hands every request to the script ---------------------------------------
     async def render_to_pipe(self, pipe):
@@ -374,6 +428,11 @@ class Runner:
                 self.log = []
                 await self.ctx.shutdown()
                 self.log = frozen
+            for _ in range(5):
+                await asyncio.sleep(0)
+            self.consumers = {k: dict(v) for k, v in self.consumers.items()}     # as they are now
+            for t in self.consumer_tasks:
+                t.cancel()
 
     async def second_context_works(self):
         """another context in the same loop still serves a request after the first was shut down"""
@@ -465,6 +524,7 @@ def run_script(script):
         "done_calls": r.done_calls,
         "shutdown": r.shutdown_info,
         "futures_at_shutdown": r.futures_at_shutdown,
+        "consumers": {k: dict(v) for k, v in r.consumers.items()},
     }
 
 
